@@ -5,6 +5,7 @@ from ..hist import HistoryRun, Stop
 from .. import oracles as O
 
 ID = "C01"
+HANG_IS_VIOLATION = True      # "always reaches that quiet state in a bounded number of steps instead of looping"
 LEVEL = "exploration"
 RULE = ("Hypothesis-generated two-sided histories: hazard-free background ops on both sides plus pure conflict gadgets "
         "from a 12-shape catalogue (create/create, edit/edit, edit/delete, delete/delete, rename/edit, rename/rename, "
